@@ -33,6 +33,10 @@ pub struct ExecCfg {
     /// acquired without suspending on a real runtime; needed when a program polls a future
     /// exactly once)
     pub lock_yield_is_choice: bool,
+    /// a task that has just acquired a write lock (the service registry) is suspended once
+    /// while holding it: other tasks run during that time, as they do on a multi-threaded
+    /// runtime - `try_read` fails, other acquisitions wait
+    pub yield_holding_lock: bool,
     /// the `select!` shuffle is a choice (otherwise: source order)
     pub select_choice: bool,
     /// hard cap on choice points per execution (machinery error when hit)
@@ -50,6 +54,7 @@ impl Default for ExecCfg {
             max_early_fires: 0,
             yield_at_lock: true,
             lock_yield_is_choice: false,
+            yield_holding_lock: false,
             select_choice: true,
             max_choice_points: 5_000,
             max_steps: 100_000,
@@ -537,6 +542,9 @@ impl hannibal::verif::Backend for BackendImpl {
         } else {
             y
         }
+    }
+    fn yield_holding_lock(&self) -> bool {
+        self.0.st.borrow().cfg.yield_holding_lock
     }
 }
 
